@@ -284,7 +284,7 @@ Print Assumptions C08_stepsize_frozen.
          -3..3 with the outer positions in the slice (3^6);
    (iii) max_depth = 1, every position in the slice, every U-turn predicate on the adjacent end points (a, a+1),
          -4 <= a <= 3 (2^8).
-   For unbounded depth see C08_orbit_uniform_alldepth_partial. *)
+   For unbounded depth see C08_orbit_uniform_alive. *)
 Theorem C08_orbit_stationary_bounded :
   (forall (l : list lab) (bs : list bool) (guard : bool), length l = 4%nat -> length bs = 4%nat ->
      colsum (win_get 2 (centred l 2)) (upred bs) guard 0 1 == 1) /\
@@ -348,11 +348,8 @@ Print Assumptions C08_block_kernel_doubly_stochastic.
 (* (d) started from the counting measure on the slice, on the event that the loop is alive after j doublings with
        trajectory (j, a) the current state is uniform on the in-slice positions of the trajectory: the mass at x
        is 2^-j for every in-slice x of a live block -- every depth, every U-turn predicate, every labelling.
-   _partial as a statement of invariance of the whole transition: what is not formalised is the bookkeeping of the
-   mass that has already stopped (a new half that says stop, a U-turn of the whole trajectory, the depth bound)
-   -- each stop freezes a state that by (d) is uniform on its trajectory; C08_orbit_stationary_bounded checks the
-   complete statement exhaustively for depth <= 1. *)
-Theorem C08_orbit_uniform_alldepth_partial :
+   The complete statement (stopped mass included) is C08_orbit_stationary below. *)
+Theorem C08_orbit_uniform_alive :
   forall (H L : Z -> ext) (U : Z -> Z -> bool) (A : Z -> Q) (logu : ext) (guard : bool),
   guard = false \/ (forall i, finite_logd Z L i = true) ->
   (forall i, sl H logu i = true -> nd H logu i = true) ->
@@ -363,7 +360,45 @@ Theorem C08_orbit_uniform_alldepth_partial :
                else 0) (zr a (2 ^ j))
   == / inject_Z (pw j) * b2q (okb H U logu j a && inb j a x && sl H logu x).
 Proof. intros H L U A logu guard Hf Hs j a x. exact (alive_uniform H L U A logu guard Hf Hs j a x). Qed.
-Print Assumptions C08_orbit_uniform_alldepth_partial.
+Print Assumptions C08_orbit_uniform_alive.
+
+(* (e) INVARIANCE ON THE ORBIT, EVERY DEPTH.  The complete transition (every way of stopping included: a new half
+       that says stop, a U-turn of the whole trajectory, the depth bound) leaves the counting measure on the in-slice
+       positions of the orbit invariant: for every in-slice position k the sum over the in-slice starts i of
+       P(i -> k) is 1 -- for every max_depth, every U-turn predicate of the end points of a (sub-)trajectory, every
+       labelling of the orbit (in slice / outside / divergent), both samplers when the log-density is finite on the
+       orbit.  (Starts further than 2^(max_depth+1) from k cannot reach it; the window contains all that can.)
+       Proof: each further doubling preserves the total mass at k (Proofs/C08_Alive.v, mass_step): the mass that is
+       still alive is uniform on its trajectory by (d), the two directions that can join two neighbouring blocks
+       cancel by n_L min(1,n_R/n_L)/n_R + 1 - min(1,n_L/n_R) = 1, and mass that has stopped stays where it is.
+       This supersedes the bounded C08_orbit_stationary_bounded. *)
+Theorem C08_orbit_stationary :
+  forall (H L : Z -> ext) (U : Z -> Z -> bool) (A : Z -> Q) (logu : ext) (guard : bool),
+  guard = false \/ (forall i, finite_logd Z L i = true) ->
+  (forall i, sl H logu i = true -> nd H logu i = true) ->
+  forall (max_depth : nat) (k : Z), sl H logu k = true ->
+  qs (fun i => if sl H logu i
+               then dist (otransition H L U A logu guard max_depth i) (fun tp => if (p_cur tp =? k)%Z then 1 else 0)
+               else 0)
+     (zr (k - pw (Datatypes.S max_depth)) (2 * 2 ^ Datatypes.S max_depth + 1)) == 1.
+Proof. intros H L U A logu guard Hf Hs md k Hk. exact (orbit_stationary H L U A logu guard Hf Hs md k Hk). Qed.
+Print Assumptions C08_orbit_stationary.
+
+(* ... in particular for every finite slice variable log u (which is what the sampler draws: H0 - Exp(1) with a
+   finite H0), where "in the slice implies not divergent" is a fact, not a hypothesis *)
+Theorem C08_orbit_stationary_finite_slice :
+  forall (H L : Z -> ext) (U : Z -> Z -> bool) (A : Z -> Q) (u : Q) (guard : bool),
+  guard = false \/ (forall i, finite_logd Z L i = true) ->
+  forall (max_depth : nat) (k : Z), sl H (Fin u) k = true ->
+  qs (fun i => if sl H (Fin u) i
+               then dist (otransition H L U A (Fin u) guard max_depth i) (fun tp => if (p_cur tp =? k)%Z then 1 else 0)
+               else 0)
+     (zr (k - pw (Datatypes.S max_depth)) (2 * 2 ^ Datatypes.S max_depth + 1)) == 1.
+Proof.
+  intros H L U A u guard Hf md k Hk.
+  exact (orbit_stationary H L U A (Fin u) guard Hf (sl_nd_fin H u) md k Hk).
+Qed.
+Print Assumptions C08_orbit_stationary_finite_slice.
 
 (* the hypotheses are satisfiable: legacy guard, finite slice variable; all positions in the slice, no U-turn:
    after 2 doublings from 0 the trajectory is [-1, 2] with probability 1/4 *)
